@@ -222,3 +222,57 @@ Proof.
 Qed.
 
 End WithStorage.
+
+(* ---------- the follower's commit index (C06) ---------- *)
+
+Lemma l_commit_to_max st l c l' :
+  l_commit_to st l c = Ok l' -> l_committed l' = N.max (l_committed l) c.
+Proof.
+  unfold l_commit_to. intros H. destruct (l_committed l <? c) eqn:E.
+  - destruct (_ <? _) in H; [discriminate|]. inversion H; subst. cbn. apply N.ltb_lt in E. lia.
+  - inversion H; subst. apply N.ltb_ge in E. lia.
+Qed.
+
+(* an accepted MsgApp moves the follower's commit index to min(leader's commit, end of the matched
+   prefix) and no further: never beyond what the leader says is committed, never beyond the part of
+   the log that the message proved equal to the leader's *)
+Theorem follower_commit_clamped st l pi pt ents c l' last :
+  l_maybe_append st l pi pt ents c = Ok (l', Some last) ->
+  last = pi + nlen ents /\
+  l_committed l' = N.max (l_committed l) (N.min c (pi + nlen ents)).
+Proof.
+  unfold l_maybe_append. intros H.
+  destruct (negb _); [discriminate|].
+  match type of H with bind ?x _ = _ => destruct x as [l1|] eqn:E1; cbn [bind] in H; [|discriminate] end.
+  match type of H with bind ?x _ = _ => destruct x as [l2|] eqn:E2; cbn [bind] in H; [|discriminate] end.
+  inversion H; subst; clear H. split; [reflexivity|].
+  apply l_commit_to_max in E2. rewrite E2. f_equal.
+  destruct (N.eqb _ 0); [inversion E1; reflexivity|].
+  destruct (_ <=? _); [discriminate|]. destruct (_ <? _); [discriminate|].
+  unfold l_append in E1. inv_ok; reflexivity.
+Qed.
+
+(* ---------- the snapshot a leader sends (C09) ---------- *)
+
+(* maybeSendSnapshot sends exactly the snapshot the log can offer: the one waiting in the unstable
+   log if there is one, otherwise the storage's latest snapshot (which the application created from
+   its applied, hence committed, state) *)
+Theorem snapshot_sent_is_the_logs st r to pr r' :
+  maybe_send_snapshot st r to pr = Ok (r', true) ->
+  exists m, r_msgs r' = r_msgs r ++ [m] /\ m_type m = MsgSnap /\ m_to m = to /\
+            m_snapshot m = Some (l_snapshot st (r_log r)) /\
+            l_snapshot st (r_log r) = match u_snapshot (l_unstable (r_log r)) with
+                                      | Some s => s
+                                      | None => ms_get_snapshot st
+                                      end.
+Proof.
+  unfold maybe_send_snapshot. intros H.
+  destruct (negb (pr_recent_active pr)); [discriminate|].
+  destruct (N.eqb _ 0); [discriminate|].
+  match type of H with bind ?x _ = _ => destruct x as [r1|] eqn:E1; cbn [bind] in H; [|discriminate] end.
+  inversion H; subst; clear H.
+  unfold send in E1. cbn [m_from m_type m_term is_vote_family N.eqb NoneId negb bind set_from set_term m_to] in E1.
+  destruct (N.eqb to (r_id (put_progress r to (pr_become_snapshot pr (s_index (l_snapshot st (r_log r))))))); [discriminate|].
+  inversion E1; subst; clear E1. cbn.
+  eexists. split; [reflexivity|]. repeat split.
+Qed.
